@@ -46,6 +46,7 @@ def run(ck, m):
     since_rule(ck, m)
     search_exits(ck, m)
     scan_reads_every_field_each_round(ck, m)
+    last_op_time_is_a_record_time(ck, m)
 
 
 def _run(ck, m):
@@ -821,3 +822,35 @@ def scan_reads_every_field_each_round(ck, m):
           'in the %d loops of the record reader every field read lies on every way round' % n if n > 0 and not bad else
           '; '.join(sorted(set(bad))[:3]), '%s:%s' % (rb.file, rb.line))
     ck.floor('C12.l', n, 1, 'loops of the record reader that read fields')
+
+
+def last_op_time_is_a_record_time(ck, m):
+    """C12.m — see RULES"""
+    P = m.prog
+    ck.rule('C12.m', 'the last-operation time a node reports is the timestamp of a record: what Oplog::last_op_time returns is 0 or a number decoded '
+                     '(from_le_bytes) from bytes read out of the log — never a number taken from somewhere else (a file name, a clock, file metadata): '
+                     'the rename time of a rotated file is later than every record in it, a node that reports it is sent nothing of what it missed')
+    lb = [b for b in P.user_bodies() if b.id.endswith('disk_ops::Oplog::last_op_time')]
+    if len(lb) != 1:
+        ck.undecided('C12.m', 'last_op_time', 'anchor', 'Oplog::last_op_time: found %d' % len(lb))
+        return
+    b = lb[0]
+    bad, good = [], 0
+    for r in core.place_origins(b, {'l': 0}, stop_at_calls=True):
+        if r[0] == 'const':
+            v = const_val(r)
+            if v == 0:
+                good += 1
+            else:
+                bad.append('the constant %s' % v)
+        elif r[0] == 'call':
+            d = callee_decl(b.term(r[1]))
+            if d.endswith('from_le_bytes') or d.endswith('from_be_bytes'):
+                good += 1
+            else:
+                bad.append('%s (%s)' % (d, b.loc(r[1])))
+        elif r[0] in ('param', 'unknown', 'agg', 'capture'):
+            bad.append('%s' % (r[0],))
+    ck.ob('C12.m', short(b.id), 'last-op-time-is-a-record-time', good > 0 and not bad,
+          'last_op_time returns 0 or a decoded record field' if good > 0 and not bad else
+          'last_op_time can return a value that is not decoded from a record: %s' % sorted(set(bad))[:3], '%s:%s' % (b.file, b.line))
